@@ -5,6 +5,8 @@
    X = (shape data steps), steps: (1 names) access (2 names) transpose (3 names) reverse
    (4 ranges) range (5 masks) mask (6 names) rename ; MX = (rows cols data steps), steps:
    (1 r0 rl c0 cl) range (2 rr rc) reverse (3) transpose.
+   (3 30 fop args..) is the IEEE-754 oracle: the case (3 fop _ args..) at f64 with elements given
+   as bit patterns (0, -0.0, inf, NaN, subnormals ..); the model line is the constant (1).
    The harness evaluates all 16 owned/borrowed x container/view forms (8 for scalars, 12/24 for
    the Into-methods) and the model the 4 container/view combinations; one result line each."""
 import itertools
@@ -18,6 +20,8 @@ NAMES = [0, 1, 2, 3, 4]
 
 # ------------------------------------------------------------------ element values
 def value(ty, rng):
+    if ty == 3:
+        return fvalue(rng)
     if ty == 0:
         r = rng.random()
         if r < 0.75:
@@ -163,6 +167,8 @@ def gen(tier, rng):
     quick = tier == "quick"
     scale = 1 if quick else 8
     tys = [0, 1, 2]
+    yield from large_cases(rng)
+    yield from float_cases(rng, 2500 * scale)
 
     # ---- 1. elementwise rule, exhaustively over a small alphabet (plain operands):
     #         every ordered pair of shapes, D = 1 (names 0..2, lengths 1..3) and D = 2
@@ -277,10 +283,122 @@ def gen(tier, rng):
             yield sx([3, 13, ty, x, k, s])
 
 
+# ------------------------------------------------------------------ large inputs, floats
+def small(ty, rng):
+    """cheap values for the large cases"""
+    if ty == 0:
+        return [rng.randrange(-3, 4), 1]
+    if ty == 1:
+        return rng.randrange(0, 5)
+    return rng.randrange(-3, 4)
+
+
+def smalls(ty, n, rng):
+    return [small(ty, rng) for _ in range(n)]
+
+
+def large_cases(rng):
+    """one or two big inputs per operator, so that size-triggered fast paths are exercised:
+    products with non-square right operands of >= 256 elements, long vectors, big elementwise"""
+    dims = [(3, 40, 8), (2, 8, 40), (2, 16, 17), (2, 17, 16), (2, 300, 1), (3, 1, 300), (5, 16, 16), (1, 64, 5), (4, 5, 64)]
+    for (m, n, k) in dims:
+        for ty in (0, 1, 2):
+            # matrix API (its harness recomputes through the tensor API as well)
+            yield sx([3, 15, ty, [m, n, smalls(ty, m * n, rng), []], [n, k, smalls(ty, n * k, rng), []]])
+            # right operand a transposed (column major) view of a k x n matrix
+            yield sx([3, 15, ty, [m, n, smalls(ty, m * n, rng), [[2, 1, 0]]], [k, n, smalls(ty, n * k, rng), [[3]]]])
+            # tensor API, plain and through a reordered access
+            yield sx([3, 5, ty, [[[0, m], [1, n]], smalls(ty, m * n, rng), []], [[[2, n], [3, k]], smalls(ty, n * k, rng), []]])
+            yield sx([3, 5, ty, [[[0, m], [1, n]], smalls(ty, m * n, rng), [[3, [1]]]],
+                      [[[3, k], [2, n]], smalls(ty, n * k, rng), [[1, [2, 3]]]]])
+    for ty in (0, 1, 2):
+        for shape in ([[0, 20], [1, 20]], [[0, 5], [1, 6], [2, 10]], [[0, 300]], [[0, 17], [1, 19]]):
+            n = elements([l for _, l in shape])
+            for op in (1, 2, 7, 8):
+                yield sx([3, op, ty, [shape, smalls(ty, n, rng), []], [shape, smalls(ty, n, rng), [[3, [shape[0][0]]]]]])
+            yield sx([3, 3, ty, [shape, smalls(ty, n, rng), []], rng.randrange(3), small(ty, rng)])
+            yield sx([3, 6, ty, [shape, smalls(ty, n, rng), [[3, [shape[-1][0]]]]]])
+        for n in (256, 300, 1000):
+            yield sx([3, 4, ty, [[[0, n]], smalls(ty, n, rng), []], [[[0, n]], smalls(ty, n, rng), [[3, [0]]]]])
+        for (r, c) in ((20, 20), (3, 100), (100, 3), (17, 16)):
+            for op in (11, 12):
+                yield sx([3, op, ty, [r, c, smalls(ty, r * c, rng), []], [c, r, smalls(ty, r * c, rng), [[3]]]])
+            yield sx([3, 13, ty, [r, c, smalls(ty, r * c, rng), [[2, 1, 1]]], rng.randrange(3), small(ty, rng)])
+            yield sx([3, 16, ty, [r, c, smalls(ty, r * c, rng), [[3]]]])
+
+
+import struct
+
+
+def fbits(x):
+    return struct.unpack("<Q", struct.pack("<d", x))[0]
+
+
+FSPECIAL = [fbits(0.0), fbits(-0.0), fbits(float("inf")), fbits(float("-inf")), 0x7ff8000000000000,
+            0xfff8000000000001, 0x7ff4000000000000, 1, 0x000fffffffffffff, fbits(1.0), fbits(-1.0),
+            fbits(2.0), fbits(3.0), fbits(-1.5), fbits(0.1), fbits(1e308), fbits(-1e308), fbits(1e-308),
+            fbits(2.0 ** 53), fbits(2.0 ** 53 + 2)]
+
+
+def fvalue(rng):
+    r = rng.random()
+    if r < 0.55:
+        return rng.choice(FSPECIAL)
+    if r < 0.85:
+        return fbits(float(rng.randrange(-6, 7)))
+    return fbits(rng.uniform(-1e3, 1e3))
+
+
+def fvalues(n, rng):
+    return [fvalue(rng) for _ in range(n)]
+
+
+def float_cases(rng, count):
+    """(3 30 fop ..): matching shapes only (the rejection rules do not depend on the element type)"""
+    for _ in range(count):
+        fop = rng.choice([1, 2, 7, 3, 6, 4, 4, 4, 5, 5, 11, 12, 15, 15, 13, 16])
+        nsteps = rng.choice([0, 0, 1, 2])
+        if fop in (1, 2, 7):
+            shape = rand_shape(rng.choice([1, 2, 2, 3]), rng)
+            n = elements([l for _, l in shape])
+            x = operand_for(shape, 3, rng, nsteps); y = operand_for(shape, 3, rng, rng.choice([0, 1, 2]))
+            yield sx([3, 30, fop, x, y])
+        elif fop in (3, 6):
+            shape = rand_shape(rng.choice([0, 1, 2, 3]), rng)
+            x = operand_for(shape, 3, rng, nsteps)
+            yield sx([3, 30, 6, x]) if fop == 6 else sx([3, 30, 3, x, rng.randrange(4), fvalue(rng)])
+        elif fop == 4:
+            shape = [[rng.choice(NAMES), rng.randrange(1, 7)]]
+            yield sx([3, 30, 4, operand_for(shape, 3, rng, nsteps), operand_for(shape, 3, rng, rng.choice([0, 1]))])
+        elif fop == 5:
+            m, n, k = (rng.randrange(1, 5) for _ in range(3))
+            a, b = rng.sample(NAMES, 2)
+            d = rng.choice([x for x in NAMES if x != a]); c = rng.choice([x for x in NAMES if x != d])
+            yield sx([3, 30, 5, operand_for([[a, m], [b, n]], 3, rng, nsteps), operand_for([[c, n], [d, k]], 3, rng, rng.choice([0, 1]))])
+        elif fop in (11, 12, 15):
+            r, c = rng.randrange(1, 5), rng.randrange(1, 5)
+            r2, c2 = (c, rng.randrange(1, 5)) if fop == 15 else (r, c)
+            yield sx([3, 30, fop, moperand_for(r, c, 3, rng, nsteps), moperand_for(r2, c2, 3, rng, rng.choice([0, 1]))])
+        else:
+            x = moperand_for(rng.randrange(1, 5), rng.randrange(1, 5), 3, rng, nsteps)
+            yield sx([3, 30, 16, x]) if fop == 16 else sx([3, 30, 13, x, rng.randrange(4), fvalue(rng)])
+    # the textbook traps: a zero paired with an infinity / NaN, signed zeros
+    inf, nan, z0, nz = fbits(float("inf")), 0x7ff8000000000000, fbits(0.0), fbits(-0.0)
+    one, two, three, four = fbits(1.0), fbits(2.0), fbits(3.0), fbits(4.0)
+    for xs, ys in (([z0, one, two], [inf, three, four]), ([inf, three, four], [z0, one, two]),
+                   ([nz, one], [nan, two]), ([nz, nz], [one, two]), ([z0], [nz]), ([nz], [fbits(-1.0)]),
+                   ([one, z0, two], [three, fbits(float("-inf")), four])):
+        n = len(xs)
+        yield sx([3, 30, 4, [[[0, n]], xs, []], [[[0, n]], ys, []]])
+        yield sx([3, 30, 4, [[[0, n]], xs, [[3, [0]]]], [[[0, n]], list(reversed(ys)), [[3, [0]]]]])
+        yield sx([3, 30, 5, [[[0, 1], [1, n]], xs, []], [[[2, n], [3, 1]], ys, []]])
+        yield sx([3, 30, 15, [1, n, xs, []], [n, 1, ys, []]])
+
+
 def nontrivial(case, model_out):
     """a rejected operand pair (panic) or a computed result with at least two elements / a
     scalar product"""
-    if model_out.startswith("(2)"):
+    if model_out.startswith("(2)") or case.startswith("(3 30 "):
         return True
     return model_out.startswith("(0") and (case.startswith("(3 4 ") or model_out.count(" ") >= 5)
 
